@@ -14,14 +14,17 @@ from .kernel import Deadlock, Kernel, activate
 class ChunkSrc:
     """Task producing the chunks of one partition (pure)."""
 
-    def __init__(self, sizes: List[int], cid0: int):
-        self.sizes, self.cid0 = list(sizes), cid0
+    def __init__(self, sizes: List[int], cid0: int, kind: str = "bytes"):
+        self.sizes, self.cid0, self.kind = list(sizes), cid0, kind
 
     def __call__(self):
-        return [(chunk_bytes(self.cid0 + j, sz), self.cid0 + j) for j, sz in enumerate(self.sizes)]
+        from .c06 import payload
+
+        pool: dict = {}
+        return [(payload(chunk_bytes(self.cid0 + j, sz), self.kind, pool), self.cid0 + j) for j, sz in enumerate(self.sizes)]
 
     def __dask_tokenize__(self):
-        return ("odcsim.ChunkSrc", tuple(self.sizes), self.cid0)
+        return ("odcsim.ChunkSrc", tuple(self.sizes), self.cid0, self.kind)
 
 
 def execute(record: dict, rng: Optional[random.Random]) -> Outcome:
@@ -53,7 +56,7 @@ def execute(record: dict, rng: Optional[random.Random]) -> Outcome:
         name = f"chunks{s}-{wid:032x}"
         dsk = {}
         for p, sizes in enumerate(parts):
-            dsk[(name, p)] = (ChunkSrc(sizes, cid),)
+            dsk[(name, p)] = (ChunkSrc(sizes, cid, cfg.get("payload", "bytes")),)
             cid += len(sizes)
         if len(parts) > 4:
             probes["layerB_fold_depth_gt1"] = 1
